@@ -4,6 +4,7 @@ import XgcmModel.Spec.C09
 /-
   Helper lemmas for C09.
 -/
+set_option linter.unusedSimpArgs false
 namespace Xgcm
 
 variable {α : Type}
@@ -129,10 +130,94 @@ theorem ext_neg_one (r : Rule) (fill : α) (l : List α) (hl : 1 ≤ l.length) :
     rw [this, getD_eq_getElem' _ _ _ (by omega)]
   · simp [ext]
   · simp only [ext]
-    simp [getD_eq_getElem' l 0 fill (by omega)]
+    simp [List.getElem?_eq_getElem (show 0 < l.length by omega)]
 
 theorem dropLast_getElem' (l : List α) (j : Nat) (h : j < l.dropLast.length) :
     l.dropLast[j] = l[j]'(by simp at h; omega) := by
   simp [List.getElem_dropLast]
+
+end Xgcm
+
+namespace Xgcm
+variable {α : Type}
+
+theorem pre_eq_of_ge (o : Ops α) (xs : List α) (m : Nat) (h : xs.length ≤ m) :
+    pre o xs m = pre o xs xs.length := by
+  unfold pre
+  rw [List.take_of_length_le h, List.take_of_length_le (Nat.le_refl _)]
+
+/-- the line theorem behind C09, for an arbitrary table entry that equals the
+    coordinate-derived one -/
+theorem cumsum_core (o : Ops α) (f t : Pos) (hv : validShift f t = true) (n : Nat) (hn : 2 ≤ n)
+    (r : Rule) (fill : α) (xs : List α) (hx : xs.length = f.len n) :
+    let e := cumsumEntrySpec f t
+    pad1d r fill e.2.1 e.2.2
+        (if e.1 then (runningSum o o.zero xs).dropLast else runningSum o o.zero xs) =
+      specCumsumLine o r fill f t n xs := by
+  intro e
+  have hrl := runningSum_length o o.zero xs
+  apply List.ext_getElem
+  · cases f <;> cases t <;> simp [validShift] at hv <;>
+      simp [e, cumsumEntrySpec, specCumsumLine, Pos.len, hrl] at * <;> omega
+  · intro k h1 h2
+    rw [pad1d_getElem]
+    simp only [specCumsumLine, List.getElem_map, List.getElem_range, specCumsumAt,
+      before_isEmpty f t hv, specSumBefore_eq o f t hv]
+    simp only [specCumsumLine, List.length_map, List.length_range] at h2
+    cases f <;> cases t <;> simp [validShift] at hv <;>
+      simp only [e, cumsumEntrySpec, cnt, Pos.len] at * <;>
+      first
+      | -- no leading cell: out[k] = rs'[k]
+        (have hk : (k : Int) - ((0 : Nat) : Int) = (k : Int) := by omega
+         rw [hk, ext_inrange _ _ _ k (by simp [hrl]; omega)]
+         have hne : ¬ (min xs.length (k + 1) = 0) := by omega
+         simp only [hne, decide_false, Bool.false_eq_true, if_false]
+         have hm : min xs.length (k + 1) = k + 1 := by omega
+         rw [hm]
+         first
+         | exact runningSum_getElem o xs k (by omega)
+         | (simp only [if_true]
+            rw [dropLast_getElem' _ _ (by simp [hrl]; omega)]
+            exact runningSum_getElem o xs k (by omega)))
+      | -- a leading cell
+        (cases k with
+         | zero =>
+           have h0 : ((0 : Nat) : Int) - ((1 : Nat) : Int) = -1 := by omega
+           rw [h0, ext_neg_one _ _ _ (by simp [hrl]; omega)]
+           simp only [Nat.min_zero, decide_true, if_true]
+           cases r
+           · -- periodic: wrap = last value
+             first
+             | (simp only [Bool.false_eq_true, if_false]
+                rw [runningSum_getElem o xs _ (by omega)]
+                congr 1; omega)
+             | (simp only [if_true]
+                rw [dropLast_getElem' _ _ (by simp [hrl]; omega),
+                    runningSum_getElem o xs _ (by simp [hrl]; omega)]
+                congr 1; simp [hrl]; omega)
+           · rfl
+           · -- extend: nearest value
+             first
+             | (simp only [Bool.false_eq_true, if_false]
+                rw [runningSum_getElem o xs _ (by omega)]
+                congr 1; omega)
+             | (simp only [if_true]
+                rw [dropLast_getElem' _ _ (by simp [hrl]; omega),
+                    runningSum_getElem o xs _ (by omega)]
+                congr 1; omega)
+         | succ k =>
+           have hk : ((k + 1 : Nat) : Int) - ((1 : Nat) : Int) = (k : Int) := by omega
+           rw [hk]
+           have hne : ¬ (min xs.length (k + 1) = 0) := by omega
+           simp only [hne, decide_false, Bool.false_eq_true, if_false]
+           have hm : min xs.length (k + 1) = k + 1 := by omega
+           rw [hm]
+           first
+           | (rw [ext_inrange _ _ _ k (by simp [hrl]; omega)]
+              exact runningSum_getElem o xs k (by omega))
+           | (simp only [if_true]
+              rw [ext_inrange _ _ _ k (by simp [hrl]; omega),
+                  dropLast_getElem' _ _ (by simp [hrl]; omega)]
+              exact runningSum_getElem o xs k (by omega)))
 
 end Xgcm
